@@ -42,20 +42,27 @@ THEOREMS = ['C12_expand_shorthand', 'C12_interpolates_evenly_spaced',
             'C12_like_card_text',
             'C12_parse_deck_text_split']
 TRUSTED = [
-    'hand-written model coq/C12/Model.v + Text.v (modelled, tied by '
-    'execution only)',
-    'regex tokenisation of cards (cellcard.split, datacard.split, Card.content): '
-    'not modelled, the harness hands the model (material, geometry | LIKE n, '
-    'options) and the IMP entries it generated; the tie runs the real '
-    'tokenisation on the rendered text',
-    'float(token), datacard.to_float(token), normalize_float(token): tables filled by the harness from '
-    'Python; int()/round() of a float and x**y: coq/C12/Exec.v (binary64), '
-    'compared at 1e-9',
+    'hand-written model coq/C12/{Text,Model,Cards}.v: modelled, tied by '
+    'execution (tie:expand, tie:parse by two routes, tie:conv, tie:fill)',
+    'Card.content() (comment removal, white-space collapse, continuation '
+    'lines) and the block splitting of MIP: not modelled; the second route of '
+    'tie:parse hands the model the real content() strings of the cell and data '
+    'cards (cellcard.split, datacard.split, LIKE_RE ARE modelled: Cards.v)',
+    'float(token), datacard.to_float(token), normalize_float(token), the table '
+    'of TR cards: primitives of the model, tables filled by the harness from '
+    'the implementation; int()/round() of a float and x**y: coq/C12/Exec.v '
+    '(binary64), compared at 1e-9',
     'to_cos / normalize_transform (C04) stay symbolic in the model; '
-    'Exec.eval_tp reads them numerically only for 0/3/12 entries',
+    'Exec.eval_tp reads them numerically only for 0/2/3/12/13 entries',
     'get_ast (C11): geometry strings are carried through, the harness maps the '
     'parsed AST back to the generated geometry text',
-    'harness: generators, impl.T4File reader, PEG shim replacing TatSu',
+    'develop_lattice: not in the C12 model (swept by lattice_sweep; linked to '
+    "C06's model by C12_lattice_elements_converted_iff_linked, whose copied "
+    'attributes - element_cell - are defined on the C12 side and not tied)',
+    'the text of the VOLU lines (C01/C08): only the VOLU ids, the '
+    '(universe cell, container) comments and the NOTE bytes are tied',
+    'harness: generators, probe-point oracle (t4eval), impl.T4File reader, PEG '
+    'shim replacing TatSu',
 ]
 ASSUMPTIONS = [
     'importances are non-negative (C12_data_card_max_zero / '
@@ -63,12 +70,13 @@ ASSUMPTIONS = [
     'at least one cell of the deck is converted: a deck whose cells all have '
     'zero importance (not a runnable MCNP problem) stops with ValueError from '
     'max() of an empty sequence, no file is written (checked: all_zero_deck)',
-    'the first entry of an IMP data card starts with a digit (datacard.split '
-    'moves a leading ".", sign or non-numeric entry into the card name: '
-    '"imp:n .5" is read as 5; zero-ness is not affected)',
+    'C12_imp_card_text only: the first entry of an IMP data card starts with a '
+    'digit (datacard.split moves a leading ".", sign or non-numeric entry into '
+    'the card name: "imp:n .5" is read as 5; modelled in Cards.data_parts and '
+    'tied; zero-ness is not affected)',
     'no LIKE cycle (the code does not terminate); no jump (nJ) entries in IMP '
-    'cards for the deck-level theorems (the code keeps None, converts the '
-    'cell, and max(None, x) is a TypeError with two cards)',
+    'cards for the zero-iff theorems (the behaviour with jumps is proved '
+    'separately: C12_jumped_cell_kept, C12_importance_cards_jump_refused)',
     'IMP data cards have pairwise distinct names (C12_importance_cards_max); '
     'a repeated name replaces the earlier card (modelled and tied)',
 ]
